@@ -114,7 +114,9 @@ def _catalogue(tier, seed):
         for fl, api in (("re", "moments"), ("re", "fn"), ("re", "model"), ("cl", "moments"), ("cl", "transform")):
             out.append(_c(fl, "lognormal", api, [dict(mean=m, std=s)], N=0, reject="ValueError"))
     # ------------------------------------------------------------------ uniform (lower, upper)
-    uni = [(0.0, 1.0), (-2.0, 3.0), (1.5, 1.75), (0.0, 2.0), (S["uniform"][0], S["uniform"][0] + S["uniform"][1])]
+    # incl. unit-width intervals away from 0 and zero-based non-unit ones (shortcuts keyed on width or offset)
+    uni = [(0.0, 1.0), (-2.0, 3.0), (1.5, 1.75), (0.0, 2.0), (-0.5, 0.5), (1.0, 2.0), (-1.0, 0.0),
+           (S["uniform"][0], S["uniform"][0] + S["uniform"][1])]
     for lo, hi in uni:
         for api in ("fn", "model") + (() if quick else ("model-named", "model-scalar")):
             out.append(_c("re", "uniform", api, [dict(lo=lo, hi=hi)]))
